@@ -576,6 +576,39 @@ def stranded_reason(h, pid, p, opens):
     return 'running-with-nothing-open:' + '+'.join(kinds)
 
 
+def mon_c05_generic(h, sc, obs):
+    """admission, whatever the workload: a terminal action accepted on an act whose last recorded state (of any instance of
+    the process) was already terminal; an action accepted on a task of a process whose non-error terminal event is out"""
+    out = []
+    last = {}
+    acts_ = {(e['pid'], e['tid']) for e in h.creates if e['kind'] == 'act'}
+    ended, ended_seq, opened = {}, {}, {}
+    facts = model_facts(sc)
+    evs = sorted([('s', e['seq'], e) for e in h.states if e['via'] == 'set'] + [('a', a['call'], a) for a in h.actions] + [('c', e['seq'], e) for e in h.cbs if e['what'] != 'start'], key=lambda x: x[1])
+    for kind, _, e in evs:
+        if kind == 's':
+            last[(e['pid'], e['tid'])] = e['new']
+            if e['new'] in OPEN and e['old'] in ('none', 'ready'):
+                opened[(e['pid'], e['tid'])] = e['seq']
+        elif kind == 'c':
+            ended.setdefault(e['pid'], e['state'])
+            ended_seq.setdefault(e['pid'], e['seq'])
+        else:
+            k = (e['pid'], e['tid'])
+            if not e['ok'] or e['action'] in ('push', 'set_process_vars') or k not in acts_:
+                continue
+            obs['c05.accepted-actions-checked'] += 1
+            st = last.get(k)
+            if st in TERM:
+                out.append(V('C05', 'accepted-on-terminal-act', f"{e['action']}:{st}", f"{e['action']} was accepted on act {e['tid']} whose last recorded state was {st}"))
+            elif ended.get(e['pid']) in NONERR_END and opened.get(k, 0) > ended_seq[e['pid']]:
+                # (an act that was left open when the process ended is C03's subject, with its causes; here: an act that
+                # was only opened after the process had ended)
+                why = why_open(h, sc, facts, k)
+                out.append(V('C05', 'accepted-on-ended-process', f"{ended[e['pid']]}:opened-after-the-end:{why}", f"{e['action']} was accepted on act {e['tid']}, which was opened after the process had delivered its {ended[e['pid']]} event [{why}]"))
+    return out
+
+
 def mon_c08_mirror(h, sc, obs):
     """several clients subscribed with the same filter: each first-time message reaches each of them exactly once"""
     out = []
